@@ -59,7 +59,7 @@ func tierConfigs(thorough bool) []config {
 		return []config{{allNames[:n], d}}
 	}
 	if thorough {
-		return []config{{allNames[:4], 8}, {allNames[:5], 6}}
+		return []config{{allNames[:4], 7}, {allNames[:5], 5}}
 	}
 	return []config{{allNames[:3], 7}, {allNames[:4], 5}}
 }
